@@ -503,11 +503,12 @@ CHECKS["C20"] = dict(
           "connection drops (FIN/RST), a backend connection killed after 1..5 commands, slot migrations that force MOVED or ASK "
           "redirections; the history ends in quiescence either by closing all clients or by Stop() with connections open. Oracle (polled "
           "for up to 5 s at quiescence): downstream cx_active == 0 and cx_total == cx_destroy_total (TCP: upstream alike); downstream and "
-          "upstream rq_total == rq_success_total + rq_failure_total; per Redis command total == success + error; cx_restricted == number "
-          "of accepted connections that were closed without service; no cx_active gauge above 2^62 at any sampling point. Non-trivial: "
+          "upstream rq_total == rq_success_total + rq_failure_total; per Redis command total == success + error; cx_restricted lies between the "
+          "number of connections opened while the model itself was at the limit and the number of all connections closed without "
+          "service (equal in almost every case); no cx_active gauge above 2^62 at any sampling point. Non-trivial: "
           "the history includes a redirection, a backend failure, a limit rejection, or a Stop with >= 1 open connection. Distinct by "
           "canonical JSON."),
-    assumptions=["a connection that is accepted and closed without service while a limit is configured counts as a limit rejection (the proxy notices client closes asynchronously)",
+    assumptions=["a connection closed without service while the model is below the limit may or may not be a limit rejection (the proxy notices client closes asynchronously; a backend connect can time out on a busy machine), hence the two-sided bound",
                  "the Redis processor keeps no upstream connection counters; only its request counters are checked upstream"],
     parts=[
         dict(name="stats", test="TestStats", kind="rapid", checks={"quick": 80, "thorough": 5000}, shards=16, timeout={"quick": 900, "thorough": 3400}, shrinktime="60s", gomaxprocs=4, crash_is_violation=True),
